@@ -69,7 +69,56 @@ pub struct Ev {
     pub mdl: Vec<String>,
     pub tpl: Vec<TplPart>,
     pub extent: Ext,
+    /// in enumeration order: own properties first, then the ambient ones (see `layout`)
     pub props: Vec<Prop>,
+    /// how the property list is physically assembled (default: one slice, emitted directly)
+    #[serde(default)]
+    pub layout: Layout,
+}
+
+/// The collection kinds a run of consecutive properties can be built as. All but `Slice` claim
+/// `Props::is_unique()`.
+#[derive(Clone, Copy, Debug, PartialEq, Eq, Serialize, Deserialize)]
+pub enum GKind {
+    /// `&[(&str, Value)]` — may hold duplicates, `is_unique() == false`
+    Slice,
+    /// one `(&str, Value)` tuple (takes exactly one property)
+    Tuple,
+    /// `BTreeMap<&str, Value>` (first occurrence of a key inside the run is inserted)
+    Map,
+    /// `slice.dedup()`
+    Dedup,
+}
+
+#[derive(Clone, Debug, PartialEq, Eq, Serialize, Deserialize)]
+pub struct Group {
+    pub len: u32,
+    pub kind: GKind,
+}
+
+/// Physical assembly of `Ev::props`: the trailing `frames` runs are pushed as `ThreadLocalCtxt` frames
+/// (last run = outermost frame) and the event is emitted through a real `emit::runtime::Runtime`,
+/// which appends the ambient properties with `and_props`; the remaining (own) properties are cut into
+/// `groups`, each built as its own collection and concatenated with `and_props` (a remainder not
+/// covered by `groups` becomes a final slice). Enumeration order — and therefore "first value wins" —
+/// is the order of `Ev::props` in every layout.
+#[derive(Clone, Debug, Default, PartialEq, Eq, Serialize, Deserialize)]
+pub struct Layout {
+    pub groups: Vec<Group>,
+    pub frames: Vec<u32>,
+    /// emit through a `Runtime` even without frames (ambient = the empty frame)
+    pub runtime: bool,
+    /// hand the own properties to the event as `&dyn ErasedProps`
+    pub erased: bool,
+}
+
+/// The resolved layout: index ranges into `Ev::props`.
+#[derive(Clone, Debug, PartialEq, Eq)]
+pub struct Plan {
+    pub own: Vec<(std::ops::Range<usize>, GKind)>,
+    /// innermost first (= enumeration order); pushed in reverse
+    pub frames: Vec<std::ops::Range<usize>>,
+    pub runtime: bool,
 }
 
 pub const LEVELS: [&str; 4] = ["debug", "info", "warn", "error"];
@@ -181,16 +230,118 @@ fn ts(t: &Ts) -> emit::Timestamp {
 
 pub type EvtProps<'a> = &'a [(&'a str, emit::Value<'a>)];
 
+type Kv<'a> = (&'a str, emit::Value<'a>);
+
+/// A property collection chosen at run time. Every variant HOLDS AND DELEGATES TO the real emit type
+/// (`And` is emit's own `And<DynProps, DynProps>`, `Dedup` is what `Props::dedup` returns …), so
+/// `for_each` / `get` / `is_unique` are answered by the code under test.
+pub enum DynProps<'a> {
+    Slice(&'a [Kv<'a>]),
+    Tuple(Kv<'a>),
+    Map(std::collections::BTreeMap<&'a str, emit::Value<'a>>),
+    Dedup(&'a [Kv<'a>]),
+    And(Box<emit::and::And<DynProps<'a>, DynProps<'a>>>),
+    Erased(Box<DynProps<'a>>),
+}
+
+impl<'a> emit::Props for DynProps<'a> {
+    fn for_each<'kv, F: FnMut(emit::Str<'kv>, emit::Value<'kv>) -> std::ops::ControlFlow<()>>(
+        &'kv self,
+        for_each: F,
+    ) -> std::ops::ControlFlow<()> {
+        match self {
+            DynProps::Slice(s) => s.for_each(for_each),
+            DynProps::Tuple(t) => t.for_each(for_each),
+            DynProps::Map(m) => m.for_each(for_each),
+            DynProps::Dedup(s) => s.dedup().for_each(for_each),
+            DynProps::And(a) => a.for_each(for_each),
+            DynProps::Erased(p) => (&**p as &dyn emit::props::ErasedProps).for_each(for_each),
+        }
+    }
+
+    fn get<'v, K: emit::str::ToStr>(&'v self, key: K) -> Option<emit::Value<'v>> {
+        match self {
+            DynProps::Slice(s) => s.get(key),
+            DynProps::Tuple(t) => t.get(key),
+            DynProps::Map(m) => emit::Props::get(m, key),
+            DynProps::Dedup(s) => s.dedup().get(key),
+            DynProps::And(a) => a.get(key),
+            DynProps::Erased(p) => (&**p as &dyn emit::props::ErasedProps).get(key),
+        }
+    }
+
+    fn is_unique(&self) -> bool {
+        match self {
+            DynProps::Slice(s) => s.is_unique(),
+            DynProps::Tuple(t) => t.is_unique(),
+            DynProps::Map(m) => m.is_unique(),
+            DynProps::Dedup(s) => s.dedup().is_unique(),
+            DynProps::And(a) => a.is_unique(),
+            DynProps::Erased(p) => (&**p as &dyn emit::props::ErasedProps).is_unique(),
+        }
+    }
+}
+
+thread_local! {
+    /// one isolated ambient store per thread (frames are always popped before a case ends)
+    static CTXT: emit::platform::thread_local_ctxt::ThreadLocalCtxt = emit::platform::thread_local_ctxt::ThreadLocalCtxt::new();
+}
+
+fn first_occurrences<'a>(kvs: &[Kv<'a>]) -> Vec<Kv<'a>> {
+    let mut out: Vec<Kv<'a>> = Vec::new();
+    for (k, v) in kvs {
+        if !out.iter().any(|(k2, _)| k2 == k) {
+            out.push((*k, v.clone()));
+        }
+    }
+    out
+}
+
 impl Ev {
     pub fn mdl_text(&self) -> String {
         self.mdl.join("::")
     }
 
-    /// Build the real `emit::Event` for this spec and hand it to `f`.
-    pub fn with_event<R>(&self, f: impl FnOnce(&emit::Event<EvtProps>) -> R) -> R {
+    /// Resolve `layout` against the actual number of properties (total for any layout values, so a
+    /// shrunk or hand-written case is always meaningful).
+    pub fn plan(&self) -> Plan {
+        let n = self.props.len();
+        // frames from the tail, the last one outermost
+        let mut end = n;
+        let mut frames_rev = Vec::new();
+        for len in self.layout.frames.iter().rev() {
+            let len = (*len as usize).min(end);
+            if len == 0 {
+                continue;
+            }
+            frames_rev.push(end - len..end);
+            end -= len;
+        }
+        frames_rev.reverse();
+        let own_n = end;
+        let mut own = Vec::new();
+        let mut at = 0;
+        for g in &self.layout.groups {
+            let want = if g.kind == GKind::Tuple { 1 } else { g.len as usize };
+            let len = want.min(own_n - at);
+            if len == 0 {
+                continue;
+            }
+            own.push((at..at + len, g.kind));
+            at += len;
+        }
+        if at < own_n || own.is_empty() {
+            own.push((at..own_n, GKind::Slice));
+        }
+        Plan { own, frames: frames_rev, runtime: self.layout.runtime || !self.layout.frames.is_empty() }
+    }
+
+    /// Build the real `emit::Event` for this spec and emit it to `em`: directly, or — when the layout
+    /// says so — through a real `Runtime` with `ThreadLocalCtxt` frames pushed.
+    pub fn emit_to<E: emit::Emitter>(&self, em: &E) {
+        use emit::Props as _;
         let held: Vec<Held> = self.props.iter().map(|p| Held::new(&p.val)).collect();
-        let props: Vec<(&str, emit::Value)> =
-            self.props.iter().zip(&held).map(|(p, h)| (p.key.as_str(), h.value())).collect();
+        let kvs: Vec<Kv> = self.props.iter().zip(&held).map(|(p, h)| (p.key.as_str(), h.value())).collect();
         let parts: Vec<emit::template::Part> = self
             .tpl
             .iter()
@@ -205,13 +356,53 @@ impl Ev {
             Ext::Point(t) => Some(emit::Extent::point(ts(t))),
             Ext::Range(a, b) => Some(emit::Extent::range(ts(a)..ts(b))),
         };
-        let evt = emit::Event::new(
-            emit::Path::new_ref_raw(&mdl),
-            emit::Template::new_ref(&parts),
-            extent,
-            &props[..],
-        );
-        f(&evt)
+        if self.layout == Layout::default() {
+            // the plain path: one slice, handed to the emitter directly
+            let evt = emit::Event::new(emit::Path::new_ref_raw(&mdl), emit::Template::new_ref(&parts), extent, &kvs[..]);
+            em.emit(&evt);
+            return;
+        }
+        let plan = self.plan();
+        let mut own: Option<DynProps> = None;
+        for (range, kind) in &plan.own {
+            let run = &kvs[range.clone()];
+            let next = match kind {
+                GKind::Slice => DynProps::Slice(run),
+                GKind::Tuple => DynProps::Tuple(run[0].clone()),
+                GKind::Map => DynProps::Map(first_occurrences(run).into_iter().collect()),
+                GKind::Dedup => DynProps::Dedup(run),
+            };
+            own = Some(match own {
+                None => next,
+                Some(prev) => DynProps::And(Box::new(prev.and_props(next))),
+            });
+        }
+        let mut own = own.unwrap_or(DynProps::Slice(&[]));
+        if self.layout.erased {
+            own = DynProps::Erased(Box::new(own));
+        }
+        let evt = emit::Event::new(emit::Path::new_ref_raw(&mdl), emit::Template::new_ref(&parts), extent, own);
+        if !plan.runtime {
+            em.emit(&evt);
+            return;
+        }
+        // a pushed set whose keys repeat would keep its LAST value (the frame is a map that is inserted
+        // into): within one frame only the first occurrence is pushed, so the reference stays "first wins"
+        let frames: Vec<Vec<Kv>> = plan.frames.iter().map(|r| first_occurrences(&kvs[r.clone()])).collect();
+        let ctxt = CTXT.with(|c| *c);
+        let rt = emit::runtime::Runtime::new().with_emitter(em).with_ctxt(ctxt);
+        fn with_frames<'a>(
+            ctxt: emit::platform::thread_local_ctxt::ThreadLocalCtxt,
+            outer_first: &[&Vec<Kv<'a>>],
+            f: &mut dyn FnMut(),
+        ) {
+            match outer_first.split_first() {
+                None => f(),
+                Some((first, rest)) => emit::Frame::push(ctxt, &first[..]).call(|| with_frames(ctxt, rest, f)),
+            }
+        }
+        let outer_first: Vec<&Vec<Kv>> = frames.iter().rev().collect();
+        with_frames(ctxt, &outer_first, &mut || rt.emit(&evt));
     }
 
     // -----------------------------------------------------------------------------------------
